@@ -80,8 +80,8 @@ enum
 };
 static const vector<Op> &ops_for(int N, int NS)
 {
-    static vector<Op> tab[MAXN + 1];
-    vector<Op> &ops = tab[N];
+    static vector<Op> tab[MAXN + 1][S_MAX + 1];
+    vector<Op> &ops = tab[N][NS];
     if (ops.empty())
     {
         static const int offs[] = {-2, 0, 1};
@@ -128,6 +128,7 @@ struct Fifo
 struct TimerModel : mc::Model
 {
     int N, NS;
+    int64_t horizon; // exec is not issued beyond this time (-1: unbounded); makes the universe finite
     igris::timer_manager *mgr;
     Timer *tim[MAXN] = {nullptr, nullptr, nullptr, nullptr};
     int64_t now = 0;
@@ -167,7 +168,8 @@ struct TimerModel : mc::Model
         ref[t].script = script;
     }
 
-    explicit TimerModel(int n) : N(n), NS(mc::thorough() ? (int)S_MAX : (int)S_UNPLAN_O2), ops(ops_for(n, NS))
+    explicit TimerModel(int n, int64_t horizon_ = -1, int ns = 0)
+        : N(n), NS(ns ? ns : (mc::thorough() ? (int)S_MAX : (int)S_UNPLAN_O2)), horizon(horizon_), ops(ops_for(n, NS))
     {
 #ifndef C16_ASAN
         memset(arena, 0xDD, sizeof arena);
@@ -179,7 +181,16 @@ struct TimerModel : mc::Model
     }
     ~TimerModel()
     {
-        // timers first (their destructors unlink), then the manager
+        // a manager list that reaches a destroyed timer was reported by check(); tearing such a universe
+        // down would only crash the worker (and cost a sanitizer report per transition): leak it instead
+        int ord[MAXN], n = 0;
+        if (!impl_order(ord, n))
+            return;
+        // unplan, then timers, then the manager (destroying a timer that is still planned is an operation
+        // of the search, K_DELETE; the teardown itself must not depend on it working)
+        for (int t = 0; t < N; t++)
+            if (tim[t])
+                tim[t]->unplan();
         for (int t = 0; t < N; t++)
             if (tim[t])
                 destroy(t);
@@ -437,6 +448,8 @@ struct TimerModel : mc::Model
             break;
         case K_EXEC:
         {
+            if (horizon >= 0 && now + p.a > horizon)
+                return false;
             if (!exec_terminates(now + p.a))
                 return false;
             now += p.a;
@@ -682,6 +695,10 @@ static void stimer_checks()
 #define C16_DEPTH_Q 5
 #define C16_DEPTH_T 6
 #endif
+#ifndef C16_HORIZON_Q
+#define C16_HORIZON_Q 2
+#define C16_HORIZON_T 8
+#endif
 
 MC_INIT
 {
@@ -689,7 +706,7 @@ MC_INIT
     o.max_states = 40000000;
 #ifdef C16_ASAN
     o.depth_quick = 4;
-    o.depth_thorough = 5;
+    o.depth_thorough = 4;
     mc::add_bfs("timer_manager_3_asan", [] { return std::unique_ptr<mc::Model>(new TimerModel(3)); }, o);
 #else
     mc::add_check("stimer_due_rule", stimer_checks);
@@ -699,6 +716,12 @@ MC_INIT
     o.depth_quick = 4;
     o.depth_thorough = 5;
     mc::add_bfs("timer_manager_4", [] { return std::unique_ptr<mc::Model>(new TimerModel(4)); }, o);
+    // finite universe run to FIX-POINT: 2 timers, 7 scripts, exec never beyond the time horizon;
+    // covers histories of any length inside the horizon
+    mc::BfsOpts f;
+    f.max_states = 40000000;
+    mc::add_bfs("timer_manager_2_fixpoint",
+                [] { return std::unique_ptr<mc::Model>(new TimerModel(2, mc::thorough() ? C16_HORIZON_T : C16_HORIZON_Q, (int)S_UNPLAN_O2)); }, f);
 #endif
 }
 MC_MAIN
